@@ -47,7 +47,7 @@ Proof. exact add_zid_item. Qed.
 Theorem C05_index_body_is_file_body : forall today ot op od key line z it,
   zidless_ok it -> z <> [] -> no_ws z = true -> no_space z = true ->
   clean_words (map word_text (item_words it)) -> forallb no_space (map word_text (item_words it)) = true ->
-  (match i_ident it with ILong d => is_long_date_spec d = true | IPlain s => is_long_date_spec s = false | _ => True end) ->
+  (match i_ident it with ILong d => is_long_date_spec d = true | IPlain s | IMod s => is_long_date_spec s = false | _ => True end) ->
   patch_body z (n_body (spec_note today ot op od key line it)) =
   n_body (spec_note today ot op od key line (with_zid z it)).
 Proof. exact index_body_is_file_body. Qed.
@@ -86,6 +86,20 @@ Theorem C05_irregular_spacing_refuted :
   patch_body (S "240601#00") (S "P1   foo") = S "240601#00 P1   foo".
 Proof. exact irregular_spacing_refuted. Qed.
 
+(* REFUTED: an edited note that has no ZID yet (a modify date alone in identity position). The write-back puts the
+   ZID in FRONT of the date, so in the rewritten file the date is a body word and the note's modify date is its
+   creation date, while the index keeps the modify date read before the write-back. *)
+Theorem C05_modify_date_without_zid_refuted :
+  let today := mkDate 2024 6 1 in
+  let it := mkItem (Some TOpen) None (IMod (S "240203")) [WId (S "foo")] in
+  let e5 := [[]; []; []; []; []] in
+  add_zid_to_line (S "240601#00") (render_item it) = Ok (S "o 240601#00 240203 foo") /\
+  render_item (with_zid (S "240601#00") it) = S "o 240601#00 240203 foo" /\
+  n_modify (spec_note today e5 e5 [None; None; None; None; None] [0] 3 it) = mkDate 2024 2 3 /\
+  n_modify (spec_note today e5 e5 [None; None; None; None; None] [0] 3 (with_zid (S "240601#00") it)) = mkDate 2024 6 1.
+Proof. cbv zeta. repeat split; vm_compute; reflexivity. Qed.
+
+Print Assumptions C05_modify_date_without_zid_refuted.
 Print Assumptions C05_zids_written_into_page.
 Print Assumptions C05_rewritten_page_notes.
 Print Assumptions C05_rewritten_page_compiles.
